@@ -157,6 +157,13 @@ type ClosV struct {
 	id    string
 }
 
+// RangeV is a map iterator: the map and the ghost set of visited keys.
+type RangeV struct {
+	M       Term
+	Visited string
+}
+
+func (RangeV) isVal()  {}
 func (Sc) isVal()      {}
 func (PtrV) isVal()    {}
 func (StructV) isVal() {}
@@ -201,6 +208,16 @@ func (GlobAddr) isAddr() {}
 type Leaf struct {
 	Path string
 	Sort Sort
+	Ref  bool // the leaf holds a reference (pointer, map, slice backing array)
+}
+
+// refFams: heap families whose elements are references (filled in as families are used)
+var refFams sync.Map
+
+func markRef(fam string, l Leaf) {
+	if l.Ref {
+		refFams.Store(fam, true)
+	}
 }
 
 type unsupported struct{ msg string }
@@ -231,38 +248,40 @@ func isTimeTime(t types.Type) bool {
 
 func leavesOf(t types.Type) []Leaf {
 	if isTimeTime(t) {
-		return []Leaf{{"", SInt}}
+		return []Leaf{{"", SInt, false}}
 	}
 	switch u := t.Underlying().(type) {
 	case *types.Basic:
 		switch {
 		case u.Info()&types.IsBoolean != 0:
-			return []Leaf{{"", SBool}}
+			return []Leaf{{"", SBool, false}}
 		case u.Info()&types.IsString != 0:
-			return []Leaf{{"", SStr}}
+			return []Leaf{{"", SStr, false}}
 		default:
-			return []Leaf{{"", SInt}}
+			return []Leaf{{"", SInt, false}}
 		}
-	case *types.Pointer, *types.Map, *types.Chan, *types.Signature:
-		return []Leaf{{"", SInt}}
+	case *types.Pointer, *types.Map:
+		return []Leaf{{"", SInt, true}}
+	case *types.Chan, *types.Signature:
+		return []Leaf{{"", SInt, false}}
 	case *types.Interface:
-		return []Leaf{{"#tag", SInt}, {"#pay", SInt}}
+		return []Leaf{{"#tag", SInt, false}, {"#pay", SInt, false}}
 	case *types.Slice:
 		if isByte(u.Elem()) {
-			return []Leaf{{"", SStr}}
+			return []Leaf{{"", SStr, false}}
 		}
-		return []Leaf{{"#arr", SInt}, {"#len", SInt}}
+		return []Leaf{{"#arr", SInt, true}, {"#len", SInt, false}}
 	case *types.Array:
 		if isByte(u.Elem()) {
-			return []Leaf{{"", SStr}}
+			return []Leaf{{"", SStr, false}}
 		}
-		return []Leaf{{"#arr", SInt}} // identity of the backing store only
+		return []Leaf{{"#arr", SInt, true}} // identity of the backing store only
 	case *types.Struct:
 		var out []Leaf
 		for i := 0; i < u.NumFields(); i++ {
 			f := u.Field(i)
 			for _, l := range leavesOf(f.Type()) {
-				out = append(out, Leaf{"." + f.Name() + l.Path, l.Sort})
+				out = append(out, Leaf{"." + f.Name() + l.Path, l.Sort, l.Ref})
 			}
 		}
 		return out
@@ -270,7 +289,7 @@ func leavesOf(t types.Type) []Leaf {
 		var out []Leaf
 		for i := 0; i < u.Len(); i++ {
 			for _, l := range leavesOf(u.At(i).Type()) {
-				out = append(out, Leaf{fmt.Sprintf(".%d%s", i, l.Path), l.Sort})
+				out = append(out, Leaf{fmt.Sprintf(".%d%s", i, l.Path), l.Sort, l.Ref})
 			}
 		}
 		return out
@@ -742,10 +761,14 @@ func (st *State) loadAt(a Addr, t types.Type) Val {
 		if v, ok := theEngine.immutableGlobal(g.G); ok {
 			return v
 		}
+		if v, ok := theEngine.literalGlobal(st, g.G); ok {
+			return v
+		}
 	}
 	root, path, idx, dims := st.resolve(a)
 	var ls []Term
 	for _, l := range leavesOf(t) {
+		markRef(root+"|"+path+l.Path, l)
 		ls = append(ls, st.load(root+"|"+path+l.Path, dims, l.Sort, idx))
 	}
 	v, _ := unflatten(t, ls)
@@ -762,6 +785,7 @@ func (st *State) storeAt(a Addr, t types.Type, v Val) {
 		bail("store arity %s: %d vs %d", t, len(ls), len(lv))
 	}
 	for i, l := range lv {
+		markRef(root+"|"+path+l.Path, l)
 		st.store(root+"|"+path+l.Path, dims, l.Sort, idx, ls[i])
 	}
 }
